@@ -462,3 +462,322 @@ Proof.
   destruct (as_cr_total _ _ _ Eca) as [-> _]. destruct (as_cr_total _ _ _ Ecb) as [-> _].
   rewrite !cr_total_of_total. reflexivity.
 Qed.
+
+(* ------------------------------------------------------------------ TimeDelta: abelian group, scaling *)
+(* a valid (non-NaT, representable) duration *)
+Definition td_valid (d : tdelta) : Prop :=
+  i32_min < td_months d <= i32_max /\ - DUR_MAX_NS <= td_ns d <= DUR_MAX_NS.
+
+Lemma td_valid_not_nat d : td_valid d -> td_is_nat d = false.
+Proof. unfold td_valid, td_is_nat. intros [H _]. lia. Qed.
+
+Lemma dur_chk_inv n r : dur_chk n = Ok r -> r = n /\ dur_in_range n = true.
+Proof. unfold dur_chk. destruct (dur_in_range n); [intros [= <-]; auto|discriminate]. Qed.
+
+Lemma td_add_inv a b r :
+  td_is_nat a = false -> td_is_nat b = false -> td_add a b = Ok r ->
+  r = mktd (td_months a + td_months b) (td_ns a + td_ns b)
+  /\ in_i32 (td_months a + td_months b) = true /\ dur_in_range (td_ns a + td_ns b) = true.
+Proof.
+  intros Ha Hb. unfold td_add. rewrite Ha, Hb. cbn [negb andb].
+  destruct (chk32 _) as [m|] eqn:Em; [|discriminate]. cbn [bind].
+  destruct (dur_chk _) as [n|] eqn:En; [|discriminate]. cbn [bind]. intros [= <-].
+  apply chk32_inv in Em. apply dur_chk_inv in En. destruct Em as [-> ?], En as [-> ?]. auto.
+Qed.
+
+Lemma td_add_intro a b :
+  td_is_nat a = false -> td_is_nat b = false ->
+  in_i32 (td_months a + td_months b) = true -> dur_in_range (td_ns a + td_ns b) = true ->
+  td_add a b = Ok (mktd (td_months a + td_months b) (td_ns a + td_ns b)).
+Proof.
+  intros Ha Hb Hm Hn. unfold td_add, chk32, dur_chk. rewrite Ha, Hb, Hm, Hn. reflexivity.
+Qed.
+
+Lemma td_add_valid a b r :
+  td_is_nat a = false -> td_is_nat b = false -> td_add a b = Ok r -> td_is_nat r = false -> td_valid r.
+Proof.
+  intros Ha Hb H Hr. destruct (td_add_inv _ _ _ Ha Hb H) as (-> & Hm & Hn).
+  unfold td_valid, td_is_nat, dur_in_range in *. cbn [td_months td_ns] in *.
+  apply in_i32_iff in Hm. lia.
+Qed.
+
+Lemma td_add_comm a b : td_add a b = td_add b a.
+Proof.
+  unfold td_add. rewrite (andb_comm (negb (td_is_nat a))), (Z.add_comm (td_months a)), (Z.add_comm (td_ns a)).
+  reflexivity.
+Qed.
+
+Lemma td_add_assoc a b c ab bc :
+  td_is_nat a = false -> td_is_nat b = false -> td_is_nat c = false ->
+  td_add a b = Ok ab -> td_add b c = Ok bc -> td_is_nat ab = false -> td_is_nat bc = false ->
+  td_add ab c = td_add a bc.
+Proof.
+  intros Ha Hb Hc Hab Hbc Nab Nbc.
+  destruct (td_add_inv _ _ _ Ha Hb Hab) as (-> & _ & _).
+  destruct (td_add_inv _ _ _ Hb Hc Hbc) as (-> & _ & _).
+  unfold td_add. rewrite Ha, Hc, Nab, Nbc. cbn [td_months td_ns negb andb].
+  rewrite !Z.add_assoc. reflexivity.
+Qed.
+
+Lemma td_add_zero_r a : td_valid a -> td_add a td_zero = Ok a.
+Proof.
+  intros Hv. pose proof (td_valid_not_nat _ Hv) as Hn. destruct Hv as [Hm Hd].
+  rewrite td_add_intro; try assumption; try reflexivity.
+  - destruct a as [am an]; cbn [td_zero td_months td_ns]. rewrite !Z.add_0_r. reflexivity.
+  - cbn [td_zero td_months]. apply in_i32_iff. lia.
+  - cbn [td_zero td_ns]. unfold dur_in_range. lia.
+Qed.
+
+Lemma td_neg_valid a : td_valid a -> td_valid (td_neg a).
+Proof.
+  intros Hv. pose proof (td_valid_not_nat _ Hv) as Hn. unfold td_neg. rewrite Hn. cbn [negb].
+  unfold td_valid, i32_min, i32_max in *. cbn [td_months td_ns]. lia.
+Qed.
+
+Lemma td_add_neg_r a : td_valid a -> td_add a (td_neg a) = Ok td_zero.
+Proof.
+  intros Hv. pose proof (td_valid_not_nat _ Hv) as Hn.
+  pose proof (td_valid_not_nat _ (td_neg_valid _ Hv)) as Hn'.
+  rewrite td_add_intro; try assumption; unfold td_neg; rewrite Hn; cbn [negb td_months td_ns].
+  - unfold td_zero. f_equal. f_equal; lia.
+  - replace (td_months a + - td_months a) with 0 by lia. reflexivity.
+  - replace (td_ns a + - td_ns a) with 0 by lia. reflexivity.
+Qed.
+
+Lemma td_neg_involutive a : td_valid a -> td_neg (td_neg a) = a.
+Proof.
+  intros Hv. pose proof (td_valid_not_nat _ (td_neg_valid _ Hv)) as Hn'.
+  pose proof (td_valid_not_nat _ Hv) as Hn.
+  unfold td_neg at 1. rewrite Hn'. unfold td_neg. rewrite Hn. cbn [negb td_months td_ns].
+  destruct a as [am an]; cbn [td_months td_ns]. f_equal; lia.
+Qed.
+
+Lemma td_sub_as_add_neg a b r :
+  td_is_nat a = false -> td_valid b -> td_sub a b = Ok r -> td_add a (td_neg b) = Ok r.
+Proof.
+  intros Ha Hv. pose proof (td_valid_not_nat _ Hv) as Hb.
+  pose proof (td_valid_not_nat _ (td_neg_valid _ Hv)) as Hb'.
+  unfold td_sub. rewrite Ha, Hb. cbn [negb andb].
+  destruct (chk32s _) as [m|] eqn:Em; [|discriminate]. cbn [bind].
+  destruct (dur_chk _) as [n|] eqn:En; [|discriminate]. cbn [bind]. intros [= <-].
+  apply chk32s_inv in Em. apply dur_chk_inv in En. destruct Em as [-> Hm], En as [-> Hd].
+  rewrite td_add_intro; try assumption; unfold td_neg; rewrite Hb; cbn [negb td_months td_ns].
+  - reflexivity.
+  - exact Hm.
+  - exact Hd.
+Qed.
+
+Lemma dur_mul_inv n k r : dur_mul n k = Ok r -> r = n * k.
+Proof. unfold dur_mul. destruct (_ || _); [discriminate|]. intros [= <-]. reflexivity. Qed.
+
+Lemma td_mul_inv a k r :
+  td_is_nat a = false -> td_mul a k = Ok r -> r = mktd (td_months a * k) (td_ns a * k).
+Proof.
+  intros Ha. unfold td_mul. rewrite Ha. cbn [negb].
+  destruct (chk32 _) as [m|] eqn:Em; [|discriminate]. cbn [bind].
+  destruct (dur_mul _ _) as [n|] eqn:En; [|discriminate]. cbn [bind]. intros [= <-].
+  apply chk32_inv in Em. apply dur_mul_inv in En. destruct Em as [-> _]. subst n. reflexivity.
+Qed.
+
+(* k * (a + b) = k * a + k * b whenever every operation involved succeeds on valid values *)
+Lemma td_mul_add_distr a b k ab l ak bk r :
+  td_is_nat a = false -> td_is_nat b = false ->
+  td_add a b = Ok ab -> td_is_nat ab = false -> td_mul ab k = Ok l ->
+  td_mul a k = Ok ak -> td_mul b k = Ok bk -> td_is_nat ak = false -> td_is_nat bk = false ->
+  td_add ak bk = Ok r -> r = l.
+Proof.
+  intros Ha Hb Hab Nab Hl Hak Hbk Nak Nbk Hr.
+  destruct (td_add_inv _ _ _ Ha Hb Hab) as (-> & _ & _).
+  apply (td_mul_inv _ _ _ Nab) in Hl. apply (td_mul_inv _ _ _ Ha) in Hak. apply (td_mul_inv _ _ _ Hb) in Hbk.
+  subst ak bk l. destruct (td_add_inv _ _ _ Nak Nbk Hr) as (-> & _ & _).
+  cbn [td_months td_ns]. f_equal; ring.
+Qed.
+
+(* scaling by 1, 0, -1 *)
+Lemma td_mul_1 a : td_valid a -> td_mul a 1 = Ok a.
+Proof.
+  intros Hv. pose proof (td_valid_not_nat _ Hv) as Hn. destruct Hv as [Hm Hd].
+  unfold td_mul, chk32, dur_mul. rewrite Hn, !Z.mul_1_r. cbn [negb].
+  replace (in_i32 (td_months a)) with true by (symmetry; apply in_i32_iff; lia). cbn [bind].
+  unfold DUR_MAX_NS, i64_min, i64_max in *.
+  destruct (_ || _) eqn:E.
+  - exfalso. Z.div_mod_to_equations. lia.
+  - cbn [bind]. destruct a as [am an]; reflexivity.
+Qed.
+
+(* ------------------------------------------------------------------ Time of day *)
+Definition hms_ok (h m s : Z) : Prop := 0 <= h < 24 /\ 0 <= m < 60 /\ 0 <= s < 60.
+
+Lemma time_from_hms_value h m s :
+  hms_ok h m s -> time_from_hms h m s = Ok ((h * 3600 + m * 60 + s) * 1000000000).
+Proof.
+  intros (Hh & Hm & Hs). unfold time_from_hms, SECS_PER_HOUR, SECS_PER_MINUTE, NANOS_PER_SEC.
+  rewrite (chk64_ok (h * 3600)) by (apply in_i64_iff; unfold i64_min, i64_max; lia). cbn [bind].
+  rewrite (chk64_ok (m * 60)) by (apply in_i64_iff; unfold i64_min, i64_max; lia). cbn [bind].
+  rewrite (chk64_ok (h * 3600 + m * 60)) by (apply in_i64_iff; unfold i64_min, i64_max; lia). cbn [bind].
+  rewrite (chk64_ok (h * 3600 + m * 60 + s)) by (apply in_i64_iff; unfold i64_min, i64_max; lia). cbn [bind].
+  apply chk64_ok. apply in_i64_iff; unfold i64_min, i64_max; lia.
+Qed.
+
+Lemma time_from_hms_nano_value h m s n :
+  hms_ok h m s -> 0 <= n < 1000000000 ->
+  time_from_hms_nano h m s n = Ok ((h * 3600 + m * 60 + s) * 1000000000 + n).
+Proof.
+  intros H Hn. unfold time_from_hms_nano. rewrite (time_from_hms_value _ _ _ H). cbn [bind].
+  destruct H as (Hh & Hm & Hs). apply chk64_ok. apply in_i64_iff; unfold i64_min, i64_max; lia.
+Qed.
+
+Lemma time_from_hms_sub_value scale h m s x :
+  hms_ok h m s -> 0 < scale -> 0 <= x -> x * scale < 1000000000 ->
+  time_from_hms_sub scale h m s x = Ok ((h * 3600 + m * 60 + s) * 1000000000 + x * scale).
+Proof.
+  intros H Hsc Hx Hlt. unfold time_from_hms_sub. rewrite (time_from_hms_value _ _ _ H). cbn [bind].
+  destruct H as (Hh & Hm & Hs).
+  rewrite (chk64_ok (x * scale)) by (apply in_i64_iff; unfold i64_min, i64_max; nia). cbn [bind].
+  apply chk64_ok. apply in_i64_iff; unfold i64_min, i64_max; nia.
+Qed.
+
+(* a time of day inside 0 .. 86400 s converts to chrono's NaiveTime (secs, frac) exactly *)
+Lemma time_as_cr_in_range t :
+  0 <= t < 86400000000000 -> time_as_cr t = Some (t / 1000000000, t mod 1000000000).
+Proof.
+  intros Ht. unfold time_as_cr, NANOS_PER_SEC.
+  rewrite Z.quot_div_nonneg, Z.rem_mod_nonneg by lia.
+  unfold wrap_u32. rewrite !Z.mod_small by (Z.div_mod_to_equations; lia).
+  unfold naive_time_opt.
+  replace (86400 <=? t / 1000000000) with false by (symmetry; apply Z.leb_gt; Z.div_mod_to_equations; lia).
+  replace (2000000000 <=? t mod 1000000000) with false by (symmetry; apply Z.leb_gt; Z.div_mod_to_equations; lia).
+  replace (1000000000 <=? t mod 1000000000) with false by (symmetry; apply Z.leb_gt; Z.div_mod_to_equations; lia).
+  reflexivity.
+Qed.
+
+Lemma time_cr_roundtrip t c :
+  0 <= t < 86400000000000 -> time_as_cr t = Some c -> time_from_cr c = t.
+Proof.
+  intros Ht H. rewrite time_as_cr_in_range in H by exact Ht. injection H as <-.
+  unfold time_from_cr, NANOS_PER_SEC. cbn [fst snd]. Z.div_mod_to_equations; lia.
+Qed.
+
+Lemma time_cr_roundtrip' secs frac :
+  0 <= secs < 86400 -> 0 <= frac < 1000000000 ->
+  time_as_cr (time_from_cr (secs, frac)) = Some (secs, frac).
+Proof.
+  intros Hs Hf. unfold time_from_cr, NANOS_PER_SEC. cbn [fst snd].
+  rewrite time_as_cr_in_range by lia. f_equal. f_equal; Z.div_mod_to_equations; lia.
+Qed.
+
+Lemma time_getters h m s n t :
+  hms_ok h m s -> 0 <= n < 1000000000 -> t = (h * 3600 + m * 60 + s) * 1000000000 + n ->
+  time_hour t = Ok h /\ time_minute t = Ok m /\ time_second t = Ok s /\ time_nanosecond t = Ok n.
+Proof.
+  intros (Hh & Hm & Hs) Hn ->.
+  unfold time_hour, time_minute, time_second, time_nanosecond.
+  rewrite time_as_cr_in_range by lia. cbn [unwrap bind fst snd].
+  repeat split; f_equal; Z.div_mod_to_equations; lia.
+Qed.
+
+(* Time +- d: exact shift, and inverse *)
+Lemma time_add_exact t d :
+  t <> NaT -> td_months d = 0 -> in_i64 (td_ns d) = true -> in_i64 (t + td_ns d) = true ->
+  time_add t d = Ok (t + td_ns d).
+Proof.
+  intros Ht Hm Hd Hr. unfold time_add, num_ns. apply is_nat_false in Ht.
+  rewrite Ht, (td_months0_not_nat _ Hm), Hm, Hd. cbn [negb andb Z.eqb]. apply chk64_ok. exact Hr.
+Qed.
+
+Lemma time_sub_exact t d :
+  t <> NaT -> td_months d = 0 -> in_i64 (td_ns d) = true -> in_i64 (t - td_ns d) = true ->
+  time_sub t d = Ok (t - td_ns d).
+Proof.
+  intros Ht Hm Hd Hr. unfold time_sub, num_ns, chk64s. apply is_nat_false in Ht.
+  rewrite Ht, (td_months0_not_nat _ Hm), Hm, Hd. cbn [negb andb Z.eqb]. rewrite Hr. reflexivity.
+Qed.
+
+Lemma time_add_inv t d y :
+  t <> NaT -> td_months d = 0 -> in_i64 (td_ns d) = true -> time_add t d = Ok y -> y = t + td_ns d.
+Proof.
+  intros Ht Hm Hd. unfold time_add, num_ns. apply is_nat_false in Ht.
+  rewrite Ht, (td_months0_not_nat _ Hm), Hm, Hd. cbn [negb andb Z.eqb]. intros H.
+  apply chk64_inv in H. tauto.
+Qed.
+
+Lemma time_add_sub_inverse t d y :
+  in_i64 t = true -> t <> NaT -> td_months d = 0 -> in_i64 (td_ns d) = true ->
+  time_add t d = Ok y -> y <> NaT -> time_sub y d = Ok t.
+Proof.
+  intros Ht64 Ht Hm Hd H Hy. apply time_add_inv in H; try assumption. subst y.
+  rewrite time_sub_exact; try assumption.
+  - f_equal. lia.
+  - replace (t + td_ns d - td_ns d) with t by lia. exact Ht64.
+Qed.
+
+(* ------------------------------------------------------------------ duration_trunc, month-free *)
+(* chrono's three-way case on the truncating remainder is the Euclidean floor *)
+Lemma trunc_floor T n :
+  0 < n ->
+  let dd := Z.rem T n in
+  (if dd =? 0 then T else if 0 <? dd then T - dd else T - (n - Z.abs dd)) = n * (T / n).
+Proof.
+  intros Hn dd. pose proof (Z.quot_rem' T n) as HT. fold dd in HT.
+  destruct (Z.le_gt_cases 0 T) as [Hpos | Hneg].
+  - pose proof (Z.rem_bound_pos_pos T n Hn Hpos) as Hb. fold dd in Hb.
+    assert (Hq : Z.quot T n = T / n) by (apply Z.div_unique with (r := dd); [left; exact Hb | exact HT]).
+    destruct (dd =? 0) eqn:E0; [|destruct (0 <? dd) eqn:E1]; lia.
+  - pose proof (Z.rem_bound_pos_neg T n Hn ltac:(lia)) as Hb. fold dd in Hb.
+    destruct (dd =? 0) eqn:E0.
+    + assert (Hq : Z.quot T n = T / n) by (apply Z.div_unique with (r := 0); [left; lia | lia]). lia.
+    + assert (Hq : Z.quot T n - 1 = T / n) by (apply Z.div_unique with (r := dd + n); [left; lia | lia]).
+      destruct (0 <? dd) eqn:E1; lia.
+Qed.
+
+Lemma cr_duration_trunc_value c span r :
+  cr_wf c -> 0 < span -> cr_duration_trunc c span = Ok r ->
+  r = cr_of_total_ns (span * (cr_total_ns c / span)).
+Proof.
+  intros Hwf Hs. unfold cr_duration_trunc.
+  destruct (num_ns span) as [sp|] eqn:Esp; [|discriminate].
+  assert (sp = span) by (unfold num_ns in Esp; destruct (in_i64 span); [injection Esp; auto|discriminate]). subst sp.
+  replace (span <=? 0) with false by lia.
+  destruct (num_ns (cr_total_ns c)) as [st|] eqn:Est; [|discriminate].
+  assert (st = cr_total_ns c) by (unfold num_ns in Est; destruct (in_i64 _); [injection Est; auto|discriminate]). subst st.
+  pose proof (trunc_floor (cr_total_ns c) span Hs) as HF. cbv zeta in HF.
+  destruct (Z.rem (cr_total_ns c) span =? 0) eqn:E0.
+  - intros [= <-]. rewrite <- HF. symmetry. apply cr_of_total_total. exact Hwf.
+  - destruct (0 <? Z.rem (cr_total_ns c) span) eqn:E1.
+    + destruct (cr_add_ns _ _) as [r'|] eqn:Er; [|discriminate]. cbn [expect_overflow]. intros [= <-].
+      apply cr_add_ns_inv in Er. destruct Er as [-> _]. f_equal. lia.
+    + destruct (cr_add_ns _ _) as [r'|] eqn:Er; [|discriminate]. cbn [expect_overflow]. intros [= <-].
+      apply cr_add_ns_inv in Er. destruct Er as [-> _]. f_equal. lia.
+Qed.
+
+Lemma dt_trunc_monthfree u x d y :
+  x <> NaT -> td_months d = 0 -> 0 < td_ns d -> dt_trunc u x d = Ok y ->
+  y = (td_ns d * (instant_ns u x / td_ns d)) / unit_ns u.
+Proof.
+  intros Hx Hm Hd. unfold dt_trunc. rewrite (proj2 (is_nat_false x) Hx), Hm. cbn [Z.eqb negb].
+  destruct (as_cr u x) as [c|] eqn:Ec; [|discriminate]. cbn [unwrap bind].
+  destruct (cr_duration_trunc c (td_ns d)) as [r|] eqn:Er; [|discriminate]. cbn [bind]. intros Hy.
+  destruct (as_cr_total _ _ _ Ec) as [-> _].
+  apply cr_duration_trunc_value in Er; [|apply cr_of_total_wf|exact Hd]. subst r.
+  rewrite cr_total_of_total in Hy. apply from_cr_of_total_val in Hy. exact Hy.
+Qed.
+
+(* when d is a whole number of units: the greatest multiple of d not after x, as instants *)
+Lemma dt_trunc_monthfree_multiple u x d y :
+  x <> NaT -> td_months d = 0 -> 0 < td_ns d -> td_ns d mod unit_ns u = 0 -> dt_trunc u x d = Ok y ->
+  instant_ns u y = td_ns d * (instant_ns u x / td_ns d)
+  /\ instant_ns u y <= instant_ns u x < instant_ns u y + td_ns d.
+Proof.
+  intros Hx Hm Hd Hk H. apply dt_trunc_monthfree in H; try assumption.
+  pose proof (unit_ns_pos u) as HU.
+  set (n := td_ns d) in *. set (T := instant_ns u x) in *.
+  assert (Hn : n = unit_ns u * (n / unit_ns u)).
+  { pose proof (Z.div_mod n (unit_ns u) ltac:(lia)). lia. }
+  assert (E : instant_ns u y = n * (T / n)).
+  { unfold instant_ns at 1. subst y.
+    rewrite Hn at 1. rewrite <- Z.mul_assoc, (Z.mul_comm (unit_ns u)), Z.div_mul by lia.
+    rewrite Hn at 3. ring. }
+  split; [exact E|]. rewrite E.
+  pose proof (Z.mul_div_le T n Hd). pose proof (Z.mul_succ_div_gt T n Hd). lia.
+Qed.
+
